@@ -45,6 +45,13 @@ pub fn floyd(w: &[Vec<f64>]) -> Vec<Vec<f64>> {
     d
 }
 
+/// Weight mode 15 (neighbouring doubles around 1): every finite distance below 4 is an exact sum
+/// (multiples of 2^-51 below 4), and an inexact sum is at least 4, so it can tie with no exact one.
+/// The exact-arithmetic oracles apply iff every finite distance is below 4.
+pub fn ulp_exact(d: &[Vec<f64>]) -> bool {
+    d.iter().all(|row| row.iter().all(|x| *x == INF || *x < 4.0))
+}
+
 /// Bellman–Ford with the same left-to-right fold as a label-setting search: dist[t] = min over
 /// paths of ((0 + w1) + w2) + ... ; float addition is monotone so the DP is exact for that fold.
 pub fn bellman_ford(w: &[Vec<f64>], s: usize) -> Vec<f64> {
